@@ -167,8 +167,10 @@ static int partial_last_record(const Shadow *s)
    :nofill-unwritten-tail  a pre-sized fixed-size dataset is physically only as long as the last byte written until the file is
                     closed (Hsetlength moves f_end_off, the file is extended at close): an in-session read that reaches beyond
                     the last written cell fails (short fread) instead of returning undefined values;
-   :linked-block-hole  (C01/F1) Hread inside a hole of a linked-block element returns a short count (hblocks.c HLPread adds
-                    `nbytes` instead of `remaining` for a missing block); reached here through NOFILL + small SDsetblocksize;
+   :nofill-linked-unwritten-tail  (C01/F26) the unwritten remainder of the last-allocated block of a linked-block element is
+                    reserved (f_end_off moved) but not in the file until close, so an in-session read reaching into it fails
+                    (short fread); reached here through NOFILL + unlimited + small SDsetblocksize.  (The former
+                    :linked-block-hole defect, HLPread's short count for a missing block, is fixed by 9115bb2.)
    :nofill-partial-last-record  an unlimited dataset whose last record is only partially written ends at the last byte written:
                     reads of the rest of that record fail and the record is not counted after reopen. */
 static const char *KEY(const Shadow *s, const char *base)
@@ -177,7 +179,7 @@ static const char *KEY(const Shadow *s, const char *base)
     if (!s->fillmode && !s->unlimited && s->unsized) snprintf(o, 96, "%s:nofill-unsized", base);
     else if (!s->fillmode && !s->unlimited && s->tail) snprintf(o, 96, "%s:nofill-unwritten-tail", base);
     else if (partial_last_record(s)) snprintf(o, 96, "%s:nofill-partial-last-record", base);
-    else if (!s->fillmode && s->unlimited && s->smallblocks) snprintf(o, 96, "%s:linked-block-hole", base);
+    else if (!s->fillmode && s->unlimited && s->smallblocks) snprintf(o, 96, "%s:nofill-linked-unwritten-tail", base);
     else snprintf(o, 96, "%s", base);
     return o;
 }
@@ -317,7 +319,7 @@ static void case_array(int k)
             for (long b = 0; b < n * s.esz; b++) buf[b] = hk_byte();
             intn r = SDwritedata(sds, start, sp, count, buf);
             hk_stat(valid ? "write_valid" : "write_invalid", 1);
-            if (valid && r == FAIL) { hk_fail(KEY(&s, "sd-valid-rejected"), "write rank %d unl %d start %d,%d,%d stride %d,%d,%d count %d,%d,%d dims %d,%d,%d", s.rank, s.unlimited, start[0],start[1],start[2],stride[0],stride[1],stride[2],count[0],count[1],count[2],s.dims[0],s.dims[1],s.dims[2]); HEprint(stdout,0); continue; }
+            if (valid && r == FAIL) { hk_fail(KEY(&s, "sd-valid-rejected"), "write rank %d unl %d start %d,%d,%d stride %d,%d,%d count %d,%d,%d dims %d,%d,%d", s.rank, s.unlimited, start[0],start[1],start[2],stride[0],stride[1],stride[2],count[0],count[1],count[2],s.dims[0],s.dims[1],s.dims[2]); HEprint(stdout,0); mark_unknown(&s, start, stride, count); continue; }
             if (!valid) {
                 if (r != FAIL) {
                     /* writing beyond the shadow capacity of an unlimited dimension is legal for the library: resync is impossible, stop the case */
